@@ -303,12 +303,12 @@ func classifyAddr(c *core.Ctx, v ssa.Value, depth int, seen map[ssa.Value]bool, 
 				if fa, ok := x.X.(*ssa.FieldAddr); ok {
 					r := core.FieldAddrRef(fa)
 					switch {
-					case r.Name == "Addr" && r.Struct != nil && r.Struct.Obj().Name() == "Message":
+					case r.Name == "Addr" && r.Struct != nil && core.StructName(r.Struct) == "Message":
 						out.desc = append(out.desc, "peer: ipv6.Message.Addr (recvmmsg source)")
 						continue
 					case r.Struct != nil && r.Struct.Obj().Pkg() != nil && core.IsModule(r.Struct.Obj().Pkg()):
 						// who-stores
-						sts := c.FieldStores(r.Struct.Obj().Pkg().Path(), r.Struct.Obj().Name(), r.Name)
+						sts := c.FieldStores(r.Struct.Obj().Pkg().Path(), core.StructName(r.Struct), r.Name)
 						if len(sts) == 0 {
 							out.ok = false
 							out.desc = append(out.desc, "field "+r.String()+" has no stores")
